@@ -349,30 +349,35 @@ deriving DecidableEq, Repr
 
 def lookupHead (l : List (Nat × Nat)) (id : Nat) : Option Nat := (l.find? fun e => e.1 == id).map (·.2)
 
+/-- first loop of `compareElementsEqual` (over `my`) -/
+def stepMyEqual (other : List (Nat × Nat)) (c : DCtx) (e : Nat × Nat) : DCtx :=
+  match lookupHead other e.1 with
+  | none => { c with removed := c.removed ++ [e.1] }
+  | some h => if h = e.2 then c else { c with changed := c.changed ++ [e.1] }
+
+/-- second loop of both variants (over `other`) -/
+def stepOtherNew (my : List (Nat × Nat)) (c : DCtx) (e : Nat × Nat) : DCtx :=
+  match lookupHead my e.1 with
+  | none => { c with newIds := c.newIds ++ [e.1] }
+  | some _ => c
+
+/-- first loop of `compareElementsGreater` (heads compared as strings; the harness interns them
+order-preserving) -/
+def stepMyGreater (other : List (Nat × Nat)) (c : DCtx) (e : Nat × Nat) : DCtx :=
+  match lookupHead other e.1 with
+  | none => { c with removed := c.removed ++ [e.1] }
+  | some h =>
+    if h = e.2 then c
+    else if h > e.2 then { c with theirChanged := c.theirChanged ++ [e.1] }
+    else { c with changed := c.changed ++ [e.1] }
+
 /-- `compareElementsEqual` -/
 def cmpEqual (c : DCtx) (my other : List (Nat × Nat)) : DCtx :=
-  let c := my.foldl (fun c e =>
-    match lookupHead other e.1 with
-    | none => { c with removed := c.removed ++ [e.1] }
-    | some h => if h = e.2 then c else { c with changed := c.changed ++ [e.1] }) c
-  other.foldl (fun c e =>
-    match lookupHead my e.1 with
-    | none => { c with newIds := c.newIds ++ [e.1] }
-    | some _ => c) c
+  other.foldl (stepOtherNew my) (my.foldl (stepMyEqual other) c)
 
-/-- `compareElementsGreater` (heads compared as strings; the harness interns them order-preserving) -/
+/-- `compareElementsGreater` -/
 def cmpGreater (c : DCtx) (my other : List (Nat × Nat)) : DCtx :=
-  let c := my.foldl (fun c e =>
-    match lookupHead other e.1 with
-    | none => { c with removed := c.removed ++ [e.1] }
-    | some h =>
-      if h = e.2 then c
-      else if h > e.2 then { c with theirChanged := c.theirChanged ++ [e.1] }
-      else { c with changed := c.changed ++ [e.1] }) c
-  other.foldl (fun c e =>
-    match lookupHead my e.1 with
-    | none => { c with newIds := c.newIds ++ [e.1] }
-    | some _ => c) c
+  other.foldl (stepOtherNew my) (my.foldl (stepMyGreater other) c)
 
 def cmpEls (greater : Bool) : DCtx → List (Nat × Nat) → List (Nat × Nat) → DCtx :=
   if greater then cmpGreater else cmpEqual
